@@ -34,6 +34,9 @@ type Contract struct {
 	Trusted  bool   // body is not verified (external or abstracted)
 	TrustWhy string // reason text for evidence
 	Inline   bool
+	Frozen   []string // heap-name prefixes read in the entry state by abstract predicates (separation assumption)
+	NoMerge  bool // transparent callee whose return paths are continued separately
+	Transparent bool // private loop-free helper executed in place at its call sites (no contract boundary)
 	ByExec   bool // contract is discharged by exhaustive execution over the full (finite) input domain
 	Allocs   int // -1 = unspecified
 	Assigns  []*Clause
@@ -62,6 +65,7 @@ type SpecFn struct {
 	Src     string
 	Rec     bool
 	Uninter bool
+	Reads   []string
 	File    string
 	Line    int
 }
@@ -73,6 +77,7 @@ type Lemma struct {
 	Body   Expr // closed formula (forall ...)
 	Src    string
 	Axiom  bool // assumed, listed in trusted base
+	DataFact bool // a Go boolean expression over package-level values, discharged by executing it
 	Uses   []string
 	Props  []string
 	File   string
@@ -87,7 +92,7 @@ type Specs struct {
 	Files     []string
 }
 
-var kwRe = regexp.MustCompile(`^(func|spec|lemma|axiom|requires|ensures|loop|pure|trusted|inline|byexec|allocs|assigns|reads|props|fresh|nosafety|uses|hint)\b`)
+var kwRe = regexp.MustCompile(`^(func|spec|lemma|axiom|datafact|requires|ensures|loop|pure|trusted|inline|byexec|transparent|frozen|allocs|assigns|reads|props|fresh|nosafety|uses|hint)\b`)
 
 func LoadSpecs(files []string) (*Specs, error) {
 	sp := &Specs{Contracts: map[string]*Contract{}, SpecFns: map[string]*SpecFn{}, Lemmas: map[string]*Lemma{}}
@@ -170,13 +175,13 @@ func (sp *Specs) loadFile(path string) error {
 			}
 			sp.SpecFns[sf.Name] = sf
 			cur = nil
-		case "lemma", "axiom":
+		case "lemma", "axiom", "datafact":
 			i := strings.Index(rest, ":")
 			if i < 0 {
 				return fail("lemma needs 'name: formula'")
 			}
 			head := strings.Fields(rest[:i])
-			lm := &Lemma{Name: head[0], Axiom: kw == "axiom", Src: strings.TrimSpace(rest[i+1:]), File: path, Line: rl.line}
+			lm := &Lemma{Name: head[0], Axiom: kw == "axiom", DataFact: kw == "datafact", Src: strings.TrimSpace(rest[i+1:]), File: path, Line: rl.line}
 			for _, h := range head[1:] {
 				if strings.HasPrefix(h, "uses=") {
 					lm.Uses = strings.Split(h[5:], ",")
@@ -206,6 +211,13 @@ func (sp *Specs) loadFile(path string) error {
 				cur.Inline = true
 			case "byexec":
 				cur.ByExec = true
+			case "transparent":
+				cur.Transparent = true
+				if strings.Contains(rest, "nomerge") {
+					cur.NoMerge = true
+				}
+			case "frozen":
+				cur.Frozen = append(cur.Frozen, strings.Fields(rest)...)
 			case "nosafety":
 				cur.NoSafety = true
 			case "props":
@@ -383,6 +395,10 @@ func parseSpecFn(s string) (*SpecFn, error) {
 	rest := strings.TrimSpace(s[i+j+1:])
 	eq := strings.Index(rest, "=")
 	if eq < 0 {
+		if i := strings.Index(rest, " reads "); i >= 0 {
+			sf.Reads = strings.Fields(rest[i+7:])
+			rest = rest[:i]
+		}
 		sf.RType = strings.TrimSpace(rest)
 		sf.Uninter = true
 		return sf, nil
